@@ -538,6 +538,55 @@ def run(lines, out, args):
                         got = "FAIL: a complete %s ran while changed() was reading the base generations (read #%d), then the base was changed; later calls keep answering %r, the base holds %r" % (ep, skip + 1, later, new)
                     if got != "ok":
                         break
+            elif scen == "delhook":
+                # a DESTRUCTOR as the re-entry point: a factory that only the lookup's cache keeps alive (it was replaced in the
+                # base registry) dies while the caches are being dropped, and its __del__ asks the registry about ANOTHER key whose
+                # registrations had changed (completely) before.  Those answers must be the current ones
+                IPy = InterfaceClass("IPy", (Interface,), __module__="zi.gen")
+                Reg = A.VerifyingAdapterRegistry if flavour == "verifying" else A.AdapterRegistry
+                base = Reg()
+                reg = Reg((base,))
+                seen = []
+
+                def probe():
+                    return (tuple(sorted(reg.lookupAll((IR,), IPy))), tuple(reg.subscriptions((IR,), IPy)), reg.lookup((IR,), IPy, ""),
+                            tuple(sorted(reg.names((IR,), IPy))), tuple(reg.subscribers((ob,), IPy)))
+
+                class Dying:
+                    def __call__(self, *a):
+                        return "dying"
+
+                    def __del__(self):
+                        try:
+                            seen.append(probe())
+                        except Exception as e:  # noqa
+                            seen.append("raised %r" % (e,))
+                f1 = Dying()
+                base.register((IR,), IP, "", f1)
+                base.subscribe((IR,), IP, f1)
+                base.register((IR,), IPy, "", fac1)
+                base.subscribe((IR,), IPy, fac1)
+                warm = (ask(reg, ep, ob), probe())
+                base.register((IR,), IPy, "", fac2)
+                base.unsubscribe((IR,), IPy, fac1)
+                base.subscribe((IR,), IPy, fac2)
+                if flavour != "verifying":
+                    ask(reg, ep, ob)                   # (the invalidating flavour dropped its caches already: fill the one for f1 again)
+                base.unsubscribe((IR,), IP, f1)
+                base.register((IR,), IP, "", fac2)     # f1 is now owned by reg's cache (and by `f1`)
+                base.subscribe((IR,), IP, fac2)
+                f1 = warm = None
+                first = ask(reg, ep, ob)
+                want = ((("", fac2),), (fac2,), fac2, ("",), (fac2(),))
+                if first != expect(ep, fac2):
+                    got = "FAIL: %s answers %r after the base registry replaced the factory by %r" % (ep, first, fac2)
+                elif not seen:
+                    got = "FAIL: harness: the replaced factory did not die"
+                elif any(x != want for x in seen):
+                    got = ("FAIL: lookups made by the destructor of a factory dying inside the cache invalidation of %s answered %r; the "
+                           "registrations (changed before either call began) say %r" % (ep, seen, want))
+                elif probe() != want:
+                    got = "FAIL: afterwards the registry answers %r, the registrations say %r" % (probe(), want)
             elif scen == "hashhook":
                 who = f[3]
                 state = {"armed": False, "pool": [], "reg": None}
